@@ -273,7 +273,7 @@ impl Prop for BundledLookup {
         8 * 64 + 8
     }
     fn cases(&self, tier: Tier) -> u32 {
-        tier.pick(3000, 60_000)
+        tier.pick(8_000, 120_000)
     }
     fn decode(&self, t: &mut Tape, _: Tier) -> BundledCase {
         let n = t.urange(1, 8);
@@ -374,7 +374,7 @@ impl Prop for GeneratedVoice {
         10000
     }
     fn cases(&self, tier: Tier) -> u32 {
-        tier.pick(2000, 40_000)
+        tier.pick(6_000, 100_000)
     }
     fn decode(&self, t: &mut Tape, _: Tier) -> GeneratedCase {
         let n = t.urange(6, 20);
